@@ -151,11 +151,10 @@ def rule_tables(prog, res, oracle_path):
             res.fn(iv)
             fa = FA(iv, prog)
             v = fa.end_val(0, iv.return_blocks()[0])
-            ok = v.op == "call" and v.args[0] == "core::option::Option::<T>::is_some" and v.args[1][0].op == "ref"
+            ok = v.op == "call" and v.args[0] == "core::option::Option::<T>::is_some"
             if ok:
-                L = v.args[1][0].args[0]
-                inner = fa.val(L.args[1], (v.args[3], 10 ** 6)) if L.op == "loc" else None
-                ok = inner is not None and inner.op == "call" and inner.args[0] == MM + g + "::to_id" and inner.args[1][0].op == "arg"
+                inner = v.args[1][0]    # observer calls carry the receiver's value
+                ok = inner.op == "call" and inner.args[0] == MM + g + "::to_id" and inner.args[1][0].op == "arg"
             res.ob("Y-tab", "%s | is_valid(s) == to_id(s).is_some()" % g, ok, show(v, fa.names), iv.loc)
         # accessors new/band/attribute
         for name, want in (("new", None), ("band", 0), ("attribute", 1)):
